@@ -28,6 +28,9 @@ let () =
         | ["X"; names; x] -> (match index_of (strs names) (explode x) with Some n -> "=" ^ string_of_int (int_of_nat n) | None -> "!None")
         | ["L"; l; mn] -> "=" ^ string_of_int (int_of_z (lag_of (List.map z_of_int (ints l)) (z_of_int (int_of_string mn))))
         | ["M"; l; mn] -> "=" ^ string_of_int (int_of_z (lead_of (List.map z_of_int (ints l)) (z_of_int (int_of_string mn))))
+        | ["I"; k] -> "=" ^ implode (idx_text (z_of_int (int_of_string k)))
+        | ["T"; num; k] -> "=" ^ implode (term_f (nat_of_int (int_of_string num)) (idx_text (z_of_int (int_of_string k))))
+        | ["U"; num; k] -> "=" ^ implode (explode "solved_values(" @ explode num @ explode ", " @ f_idx_text (z_of_int (int_of_string k)) @ explode ")")
         | _ -> "?bad request"
       in
       print_string (esc out); print_newline ()
